@@ -158,7 +158,9 @@ pub fn run_seq<V: Clone + Debug + Hash + Eq + Send + Sync + 'static>(
             ));
         }
     }
-    ctx.add_explored(name, u1, t1, t1 - viol.len() as u64, done1, wall);
+    // states whose complete model trace was reproduced by the implementation (every transition into a state is compared;
+    // violating states are recorded and not expanded)
+    ctx.add_explored(name, u1, t1, u1.saturating_sub(viol.len() as u64), done1, wall);
     ctx.add_nontrivial(u1.saturating_sub(init.len() as u64));
     ctx.bound(&format!("{name}.max_depth"), maxd as u64);
     ctx.add_sample(name, format!("init={:?}; actions={:?}; depth<={}", init.first(), (0..n_actions.min(8)).map(|a| action_name(a)).collect::<Vec<_>>(), max_depth));
